@@ -1,18 +1,70 @@
 /-
   C12 — Curve-group components compute the JubJub group law.
 
-  STATUS: this file holds the *math-level core* of C12 (field facts, the host-side addition
-  `edAdd?`/`edAddOrId`, the row semantics of the curve-addition gate, the ladder), each about the
-  model's own functions, each followed by a non-vacuity example.
-  MISSING (composer glue, not in this file yet): the gadget-level theorems about
-  `Composer.addPointGates`, `componentNegPoint`, `componentSubPoint`, `componentSelectIdentity`,
-  `componentSelectPoint`, `componentMulPoint` (rows appended to a `Composer` state, `sysSat`).
-  Nothing here depends on `JubjubGroupFacts`: associativity of the addition law is proved
-  (`Plonk/Proofs/EdwardsAssoc.lean`); the group *order* is not needed for C12.
+  "For points of the prime-order subgroup, component_add_point, component_sub_point,
+  component_neg_point, component_mul_point and component_select_identity are always satisfiable
+  and return exactly the group sum, difference, negation, scalar multiple (for any 252-bit scalar)
+  and bit-selected point; component_select_point returns the chosen input for a boolean bit.  The
+  coordinates they return are uniquely determined, and component_select_identity is unsatisfiable
+  for a non-boolean bit."
+
+  STATUS: everything is proved at full strength about the model's own functions
+  (`Composer.componentAddPoint` = `addPointGates`, `componentNegPoint`, `componentSubPoint`,
+  `componentSelectIdentity`, `componentSelectPoint`, `componentMulPoint`); there is no `_partial`
+  theorem.  Part I is the math-level core (field facts, host-side addition, the row semantics of
+  the curve-addition gate, the ladder); Part II is the composer level.
+
+  Conventions (Part II).  `c` is the composer state before the call, `c'` the state after it,
+  `c''` any later state (`Extends c' c''`); `w : Nat → Nat` is an ARBITRARY assignment of values
+  to witness indices (inputs, outputs and helper wires all prover-chosen);
+  `c''.rowsHoldW w c.gates.size c'.gates.size` says that the rows appended by the call hold under
+  `w`; `ptW w p = (toF (w p.1), toF (w p.2))` is the field point carried by the wire pair `p`;
+  `PtAlloc c p` says both wires are allocated.  `AppendsL c c' k m` (`Proofs/PointGadgets.lean`):
+  `c'` extends `c` by exactly `k` gates and `m` witnesses and the last appended gate is plain (reads
+  no next-row wire — so nothing appended later changes the meaning of the component's rows).
+  `WF c` (C08): witness values reduced and no public input registered for a non-existent row
+  (`PiFresh`); an invariant of every state reachable from `initialized`.
+  For each component: `X_extends` (returned indices, counts, invariants), `X_sound` (every
+  satisfying assignment carries the group-law result; unique coordinates, unique helper wires),
+  `X_complete` (the model's own witness table satisfies the rows and stores the group-law result),
+  `X_exact` (the set of satisfying assignments, as an iff).
+
+  ON "POINTS OF THE PRIME-ORDER SUBGROUP".  All results are stated for input points ON THE CURVE
+  (field-level `OnCurveP`); the prime-order subgroup is a subset, so they hold a fortiori for its
+  points.  "P in the subgroup" is ONLY needed to call the result "the group law of the prime-order
+  subgroup": the subgroup (`InSubgroup P` := on the curve and `[r_J]P = O`) is closed under sum,
+  negation, difference, scalar multiples and bit selection (`subgroup_closed`,
+  `subgroup_closed_sel`) — a consequence of the `AddCommGroup` structure on curve points
+  (`CurvePt.addCommGroup`, associativity proved in `Proofs/EdwardsAssoc.lean`).  Nothing depends
+  on the hypothesis structure `JubjubGroupFacts` (the group order is not needed for C12).
+  The completeness of the addition law on ALL curve points (`d` non-square) is what makes the
+  components "always satisfiable": the host never hits a pole.
+
+  Forced hypotheses (findings; none is a defect of the Rust code):
+    * inputs on the curve: off the curve the addition row can be unsatisfiable (a pole, see the
+      example after `add_complete`) or satisfied by values that are not a group law.  The
+      components do NOT check curve membership; callers get it from `append_point`-style
+      constructors / the on-curve output of earlier components (every `X_sound` returns
+      `OnCurveP` of the output so that components chain).
+    * `PiFresh c` / `WF c`: as in C08/C09 (stale sparse public inputs would leak into fresh rows).
+    * `component_mul_point`: `toF (w 0) = 0 ∧ toF (w 1) = 1` — the ladder starts from the constant
+      witnesses `(ZERO, ONE)` = identity, whose values are pinned by rows 0, 1 of
+      `Composer::initialized()` (`initialized_base_ext`), not by the component; and the zero
+      witness is the initial accumulator of the decomposition.
+    * completeness: inputs allocated (`PtAlloc`, `bit < c.wit.size`, `s < c.wit.size`).
+    * `component_select_point` does NOT constrain the bit to be boolean (the property only claims
+      the chosen input "for a boolean bit"); for a non-boolean bit the output is the affine
+      combination `bit·a + (1 − bit)·b`, in general off the curve.
+    * `component_select_identity` with bit value `b ∉ {0,1}` is unsatisfiable
+      (`componentSelectIdentity_unsat`).
+    * `component_mul_point`: the rows force the scalar witness below `2^252`
+      (`componentMulPoint_sound`), and are satisfiable exactly then; a scalar witness `≥ 2^252`
+      (e.g. a reduced JubJub scalar is always below, but an arbitrary BLS scalar need not be) makes
+      the circuit unsatisfiable (`componentMulPoint_unsat`).
 -/
-import Plonk.Proofs.EdwardsExamples
+import Plonk.Proofs.PointExamples
 namespace Plonk.Props.C12
-open Plonk
+open Plonk Plonk.Composer
 
 theorem placeholder_consts : Generated.JUBJUB_SCALAR_BITS = 252 ∧ Generated.FIXED_BASE_LEADING_ZERO_ROUNDS = 3 ∧ Generated.MUL_POINT_BITS = 252 := by decide
 
@@ -104,5 +156,492 @@ example : toFP ([true, false, true].foldl
     (fun acc b => edAddOrId (edAddOrId acc acc) (if b then exG else Pt.id)) Pt.id)
       = smulF 5 (toFP exG) :=
   (ladder_is_scalar_mul exG exG_on_curve [true, false, true]).2
+
+/-! # Part II — the composer components -/
+
+/-! ## the prime-order subgroup is closed -/
+
+/-- **subgroup_closed**: `[r_J]P = O ∧ [r_J]Q = O → [r_J](P+Q) = O`, likewise for `−P`, `P − Q`,
+    `[n]P` and `O`: the results of the components on subgroup points are subgroup points. -/
+theorem subgroup_closed {P Q : PtF} (hP : OnCurveP P) (hQ : OnCurveP Q)
+    (kP : smulF RJ P = idF) (kQ : smulF RJ Q = idF) (n : ℕ) :
+    smulF RJ (addF P Q) = idF ∧ smulF RJ (negF P) = idF ∧ smulF RJ (addF P (negF Q)) = idF ∧
+    smulF RJ (smulF n P) = idF ∧ smulF RJ idF = idF :=
+  Plonk.subgroup_closed hP hQ kP kQ n
+
+/-- … and under bit selection -/
+theorem subgroup_closed_sel {P : PtF} (hP : InSubgroup P) {b : F} (hb : b = 0 ∨ b = 1) :
+    InSubgroup (selIdF b P) := hP.sel hb
+
+/-- non-vacuity: the identity is a subgroup point; a point of order 2 is on the curve but not in
+    the subgroup (`r_J` is odd) -/
+example : InSubgroup idF := inSubgroup_id
+example : OnCurveP ((0, -1) : PtF) ∧ addF ((0, -1) : PtF) (0, -1) = idF := by
+  constructor
+  · unfold OnCurveP OnCurveF; ring
+  · unfold addF idF; simp
+
+/-! ## `component_add_point` (= `add_point_gates`) -/
+
+/-- `component_add_point a b` returns `(n+1, n+2)` (`n = c.wit.size`; the helper wire is `n`),
+    appends 2 gates (a variable-base row and a plain closing row) and 3 witnesses, and preserves
+    the invariants. -/
+theorem componentAddPoint_extends (a b : Pt) (c : Composer) :
+    ((componentAddPoint a b).run c).1 = (c.wit.size + 1, c.wit.size + 2) ∧
+    AppendsL c ((componentAddPoint a b).run c).2 2 3 ∧
+    (PiFresh c → PiFresh ((componentAddPoint a b).run c).2) ∧
+    (WF c → WF ((componentAddPoint a b).run c).2) :=
+  ⟨addPointGates_fst a b c, addPointGates_appendsL a b c, addPointGates_piFresh a b c,
+    addPointGates_wf a b c⟩
+
+/-- **Soundness.**  For every assignment `w` whose input wires carry curve points: if the rows
+    hold (read in `c'` or any later state), the helper wire carries `x₁·y₂`, the returned pair
+    carries the group sum — so all three new wires are uniquely determined — and the sum is on the
+    curve. -/
+theorem componentAddPoint_sound (a b : Pt) (c : Composer) (hpi : PiFresh c)
+    (c'' : Composer) (hext : Extends ((componentAddPoint a b).run c).2 c'') (w : Nat → Nat)
+    (h1 : OnCurveP (ptW w a)) (h2 : OnCurveP (ptW w b))
+    (hrows : c''.rowsHoldW w c.gates.size ((componentAddPoint a b).run c).2.gates.size) :
+    toF (w c.wit.size) = toF (w a.1) * toF (w b.2) ∧
+    ptW w ((componentAddPoint a b).run c).1 = addF (ptW w a) (ptW w b) ∧
+    OnCurveP (ptW w ((componentAddPoint a b).run c).1) :=
+  addPointGates_sound a b c hpi w h1 h2
+    (((addPointGates_appendsL a b c).rows_ext hext w).mp hrows)
+
+/-- **Completeness.**  For allocated on-curve inputs the model's own witness table satisfies the
+    rows (always satisfiable), and the returned pair stores the group sum of the input values. -/
+theorem componentAddPoint_complete (a b : Pt) (c : Composer) (hpi : PiFresh c)
+    (ha : PtAlloc c a) (hb : PtAlloc c b)
+    (h1 : OnCurveP (ptW c.val a)) (h2 : OnCurveP (ptW c.val b))
+    (c'' : Composer) (hext : Extends ((componentAddPoint a b).run c).2 c'') :
+    c''.rowsHoldW c''.val c.gates.size ((componentAddPoint a b).run c).2.gates.size ∧
+    ptW ((componentAddPoint a b).run c).2.val ((componentAddPoint a b).run c).1 =
+      addF (ptW c.val a) (ptW c.val b) :=
+  ⟨((addPointGates_appendsL a b c).rows_ext hext _).mpr
+      (addPointGates_honest_ext a b c hpi ha hb h1 h2 hext),
+    (addPointGates_val a b c h1 h2).2⟩
+
+/-- **Exactness.**  On curve inputs, the satisfying assignments are exactly those whose helper
+    wire is `x₁·y₂` and whose returned pair is the group sum. -/
+theorem componentAddPoint_exact (a b : Pt) (c : Composer) (hpi : PiFresh c)
+    (c'' : Composer) (hext : Extends ((componentAddPoint a b).run c).2 c'') (w : Nat → Nat)
+    (h1 : OnCurveP (ptW w a)) (h2 : OnCurveP (ptW w b)) :
+    c''.rowsHoldW w c.gates.size ((componentAddPoint a b).run c).2.gates.size ↔
+      toF (w c.wit.size) = toF (w a.1) * toF (w b.2) ∧
+      ptW w (c.wit.size + 1, c.wit.size + 2) = addF (ptW w a) (ptW w b) :=
+  ((addPointGates_appendsL a b c).rows_ext hext w).trans
+    (addPointGates_rows_iff_on_curve a b c hpi w h1 h2)
+
+/-- completeness for every assignment of the old wires (not only the model's): it extends to the
+    three new wires -/
+theorem componentAddPoint_satisfiable (a b : Pt) (c : Composer) (hpi : PiFresh c)
+    (ha : PtAlloc c a) (hb : PtAlloc c b) (w0 : Nat → Nat)
+    (h1 : OnCurveP (ptW w0 a)) (h2 : OnCurveP (ptW w0 b)) :
+    ∃ w, (∀ i, i < c.wit.size → w i = w0 i) ∧
+      ((componentAddPoint a b).run c).2.rowsHoldW w c.gates.size
+        ((componentAddPoint a b).run c).2.gates.size :=
+  addPointGates_exists a b c hpi ha hb w0 h1 h2
+
+/-- non-vacuity (instance `exC`: `initialized` + `exG` on wires (6,7) + `2·exG` on wires (8,9)):
+    the model's table satisfies the rows of `exG + 2·exG`, stores the sum, and soundness applied to
+    that table returns an on-curve output -/
+example : ptW ((componentAddPoint (6, 7) (8, 9)).run exC).2.val
+      ((componentAddPoint (6, 7) (8, 9)).run exC).1 = addF (toFP exG) (toFP exH) := by
+  have := (componentAddPoint_complete (6, 7) (8, 9) exC exC_wf.piFresh exC_allocG exC_allocH
+    exC_onG exC_onH _ (Extends.refl _)).2
+  rwa [exC_ptG, exC_ptH] at this
+example : OnCurveP (ptW ((componentAddPoint (6, 7) (8, 9)).run exC).2.val
+      ((componentAddPoint (6, 7) (8, 9)).run exC).1) :=
+  have hx := (componentAddPoint_extends (6, 7) (8, 9) exC).2.1.ext
+  (componentAddPoint_sound (6, 7) (8, 9) exC exC_wf.piFresh _ (Extends.refl _) _
+    (by rw [hx.ptW_val_eq exC_allocG]; exact exC_onG)
+    (by rw [hx.ptW_val_eq exC_allocH]; exact exC_onH)
+    (componentAddPoint_complete (6, 7) (8, 9) exC exC_wf.piFresh exC_allocG exC_allocH
+      exC_onG exC_onH _ (Extends.refl _)).1).2.2
+
+/-! ## `component_neg_point` -/
+
+/-- `component_neg_point p` returns `(n, p.2)`, appends one plain gate and one witness -/
+theorem componentNegPoint_extends (p : Pt) (c : Composer) :
+    ((componentNegPoint p).run c).1 = (c.wit.size, p.2) ∧
+    AppendsL c ((componentNegPoint p).run c).2 1 1 ∧
+    (WF c → WF ((componentNegPoint p).run c).2) :=
+  ⟨Composer.componentNegPoint_fst p c, componentNegPoint_appendsL p c,
+    Composer.componentNegPoint_wf p c⟩
+
+/-- **Soundness** (no curve hypothesis needed for the value): the returned pair carries `−P`; it
+    is on the curve if `P` is. -/
+theorem componentNegPoint_sound (p : Pt) (c : Composer) (h : WF c)
+    (c'' : Composer) (hext : Extends ((componentNegPoint p).run c).2 c'') (w : Nat → Nat)
+    (hrows : c''.rowsHoldW w c.gates.size ((componentNegPoint p).run c).2.gates.size) :
+    ptW w ((componentNegPoint p).run c).1 = negF (ptW w p) ∧
+    (OnCurveP (ptW w p) → OnCurveP (ptW w ((componentNegPoint p).run c).1)) :=
+  Composer.componentNegPoint_sound p c h w
+    (((componentNegPoint_appendsL p c).rows_ext hext w).mp hrows)
+
+/-- **Completeness**: always satisfiable (allocated input); the model stores `−P`. -/
+theorem componentNegPoint_complete (p : Pt) (c : Composer) (h : WF c) (hp : PtAlloc c p)
+    (c'' : Composer) (hext : Extends ((componentNegPoint p).run c).2 c'') :
+    c''.rowsHoldW c''.val c.gates.size ((componentNegPoint p).run c).2.gates.size ∧
+    ptW ((componentNegPoint p).run c).2.val ((componentNegPoint p).run c).1 =
+      negF (ptW c.val p) :=
+  ⟨((componentNegPoint_appendsL p c).rows_ext hext _).mpr
+      (componentNegPoint_honest_ext p c h hp hext),
+    componentNegPoint_ptW_val p c hp⟩
+
+/-- **Exactness**: the row holds iff the new wire carries `−x`. -/
+theorem componentNegPoint_exact (p : Pt) (c : Composer) (h : WF c)
+    (c'' : Composer) (hext : Extends ((componentNegPoint p).run c).2 c'') (w : Nat → Nat) :
+    c''.rowsHoldW w c.gates.size ((componentNegPoint p).run c).2.gates.size ↔
+      toF (w c.wit.size) = - toF (w p.1) :=
+  ((componentNegPoint_appendsL p c).rows_ext hext w).trans (componentNegPoint_rows_iff p c h w)
+
+example : ptW ((componentNegPoint (6, 7)).run exC).2.val ((componentNegPoint (6, 7)).run exC).1 =
+    negF (toFP exG) := by
+  have := (componentNegPoint_complete (6, 7) exC exC_wf exC_allocG _ (Extends.refl _)).2
+  rwa [exC_ptG] at this
+
+/-! ## `component_sub_point` -/
+
+/-- `component_sub_point a b` returns `(n+2, n+3)`; wire `n` is `−x₂`, wire `n+1` the helper;
+    3 gates, 4 witnesses -/
+theorem componentSubPoint_extends (a b : Pt) (c : Composer) :
+    ((componentSubPoint a b).run c).1 = (c.wit.size + 2, c.wit.size + 3) ∧
+    AppendsL c ((componentSubPoint a b).run c).2 3 4 ∧
+    (WF c → WF ((componentSubPoint a b).run c).2) :=
+  ⟨Composer.componentSubPoint_fst a b c, componentSubPoint_appendsL a b c,
+    Composer.componentSubPoint_wf a b c⟩
+
+/-- **Soundness.**  On curve inputs the rows force all four new wires: `n = −x₂`,
+    `n+1 = x₁·y₂`, returned pair `= A − B`, which is on the curve. -/
+theorem componentSubPoint_sound (a b : Pt) (c : Composer) (h : WF c)
+    (c'' : Composer) (hext : Extends ((componentSubPoint a b).run c).2 c'') (w : Nat → Nat)
+    (h1 : OnCurveP (ptW w a)) (h2 : OnCurveP (ptW w b))
+    (hrows : c''.rowsHoldW w c.gates.size ((componentSubPoint a b).run c).2.gates.size) :
+    toF (w c.wit.size) = - toF (w b.1) ∧
+    toF (w (c.wit.size + 1)) = toF (w a.1) * toF (w b.2) ∧
+    ptW w ((componentSubPoint a b).run c).1 = addF (ptW w a) (negF (ptW w b)) ∧
+    OnCurveP (ptW w ((componentSubPoint a b).run c).1) :=
+  Composer.componentSubPoint_sound a b c h w h1 h2
+    (((componentSubPoint_appendsL a b c).rows_ext hext w).mp hrows)
+
+/-- **Completeness**: always satisfiable for allocated curve points; the model stores `A − B`. -/
+theorem componentSubPoint_complete (a b : Pt) (c : Composer) (h : WF c)
+    (ha : PtAlloc c a) (hb : PtAlloc c b)
+    (h1 : OnCurveP (ptW c.val a)) (h2 : OnCurveP (ptW c.val b))
+    (c'' : Composer) (hext : Extends ((componentSubPoint a b).run c).2 c'') :
+    c''.rowsHoldW c''.val c.gates.size ((componentSubPoint a b).run c).2.gates.size ∧
+    ptW ((componentSubPoint a b).run c).2.val ((componentSubPoint a b).run c).1 =
+      addF (ptW c.val a) (negF (ptW c.val b)) :=
+  ⟨((componentSubPoint_appendsL a b c).rows_ext hext _).mpr
+      (componentSubPoint_honest_ext a b c h ha hb h1 h2 hext),
+    componentSubPoint_ptW_val a b c h ha hb h1 h2⟩
+
+/-- **Exactness.**  On curve inputs the satisfying assignments are exactly those with
+    `n = −x₂`, `n+1 = x₁·y₂` and returned pair `A − B`. -/
+theorem componentSubPoint_exact (a b : Pt) (c : Composer) (h : WF c)
+    (c'' : Composer) (hext : Extends ((componentSubPoint a b).run c).2 c'') (w : Nat → Nat)
+    (h1 : OnCurveP (ptW w a)) (h2 : OnCurveP (ptW w b)) :
+    c''.rowsHoldW w c.gates.size ((componentSubPoint a b).run c).2.gates.size ↔
+      toF (w c.wit.size) = - toF (w b.1) ∧
+      toF (w (c.wit.size + 1)) = toF (w a.1) * toF (w b.2) ∧
+      ptW w (c.wit.size + 2, c.wit.size + 3) = addF (ptW w a) (negF (ptW w b)) := by
+  refine ((componentSubPoint_appendsL a b c).rows_ext hext w).trans
+    ((componentSubPoint_rows_iff a b c h w).trans ?_)
+  constructor
+  · rintro ⟨e1, e2⟩
+    have hn : (toF (w c.wit.size), toF (w b.2)) = negF (ptW w b) := by
+      unfold negF ptW; simp only [e1]
+    have h2' : OnCurveP (toF (w c.wit.size), toF (w b.2)) := by
+      rw [hn]; exact neg_on_curveP h2
+    obtain ⟨e3, e4⟩ := (varRowF_iff_of_on_curve h1 h2' _ _ _).mp e2
+    exact ⟨e1, e3, by rw [← hn]; exact e4⟩
+  · rintro ⟨e1, e3, e4⟩
+    have hn : (toF (w c.wit.size), toF (w b.2)) = negF (ptW w b) := by
+      unfold negF ptW; simp only [e1]
+    have h2' : OnCurveP (toF (w c.wit.size), toF (w b.2)) := by
+      rw [hn]; exact neg_on_curveP h2
+    exact ⟨e1, (varRowF_iff_of_on_curve h1 h2' _ _ _).mpr ⟨e3, by rw [hn]; exact e4⟩⟩
+
+example : ptW ((componentSubPoint (8, 9) (6, 7)).run exC).2.val
+      ((componentSubPoint (8, 9) (6, 7)).run exC).1 = addF (toFP exH) (negF (toFP exG)) := by
+  have := (componentSubPoint_complete (8, 9) (6, 7) exC exC_wf exC_allocH exC_allocG
+    exC_onH exC_onG _ (Extends.refl _)).2
+  rwa [exC_ptG, exC_ptH] at this
+
+/-! ## `component_select_identity` -/
+
+/-- `component_select_identity bit a` returns `(n, n+1)`; 3 plain gates (boolean, select-zero,
+    select-one), 2 witnesses -/
+theorem componentSelectIdentity_extends (bit : Nat) (a : Pt) (c : Composer) :
+    ((componentSelectIdentity bit a).run c).1 = (c.wit.size, c.wit.size + 1) ∧
+    AppendsL c ((componentSelectIdentity bit a).run c).2 3 2 ∧
+    (WF c → WF ((componentSelectIdentity bit a).run c).2) :=
+  ⟨Composer.componentSelectIdentity_fst bit a c, componentSelectIdentity_appendsL bit a c,
+    Composer.componentSelectIdentity_wf bit a c⟩
+
+/-- **Soundness.**  Every satisfying assignment has a boolean bit wire, and the returned pair
+    carries the identity for `0` and the input point for `1` (unique coordinates). -/
+theorem componentSelectIdentity_sound (bit : Nat) (a : Pt) (c : Composer) (h : WF c)
+    (c'' : Composer) (hext : Extends ((componentSelectIdentity bit a).run c).2 c'')
+    (w : Nat → Nat)
+    (hrows : c''.rowsHoldW w c.gates.size ((componentSelectIdentity bit a).run c).2.gates.size) :
+    (toF (w bit) = 0 ∧ ptW w ((componentSelectIdentity bit a).run c).1 = idF) ∨
+    (toF (w bit) = 1 ∧ ptW w ((componentSelectIdentity bit a).run c).1 = ptW w a) :=
+  Composer.componentSelectIdentity_sound bit a c h w
+    (((componentSelectIdentity_appendsL bit a c).rows_ext hext w).mp hrows)
+
+/-- **Unsatisfiable for a non-boolean bit.** -/
+theorem componentSelectIdentity_unsat (bit : Nat) (a : Pt) (c : Composer) (h : WF c)
+    (c'' : Composer) (hext : Extends ((componentSelectIdentity bit a).run c).2 c'')
+    (w : Nat → Nat) (h0 : toF (w bit) ≠ 0) (h1 : toF (w bit) ≠ 1) :
+    ¬ c''.rowsHoldW w c.gates.size ((componentSelectIdentity bit a).run c).2.gates.size :=
+  fun hrows => Composer.componentSelectIdentity_unsat bit a c h w h0 h1
+    (((componentSelectIdentity_appendsL bit a c).rows_ext hext w).mp hrows)
+
+/-- **Completeness.**  For an allocated bit with value `0` or `1` and an allocated point the
+    model's table satisfies the rows; it stores `(bit·x, 1 − bit + bit·y)`, i.e. `P` or `O`. -/
+theorem componentSelectIdentity_complete (bit : Nat) (a : Pt) (c : Composer) (h : WF c)
+    (hb : bit < c.wit.size) (ha : PtAlloc c a) (hbit : c.val bit = 0 ∨ c.val bit = 1)
+    (c'' : Composer) (hext : Extends ((componentSelectIdentity bit a).run c).2 c'') :
+    c''.rowsHoldW c''.val c.gates.size ((componentSelectIdentity bit a).run c).2.gates.size ∧
+    ptW ((componentSelectIdentity bit a).run c).2.val ((componentSelectIdentity bit a).run c).1 =
+      (if c.val bit = 1 then ptW c.val a else idF) := by
+  refine ⟨((componentSelectIdentity_appendsL bit a c).rows_ext hext _).mpr
+      (componentSelectIdentity_honest_ext bit a c h hb ha hbit hext), ?_⟩
+  rw [componentSelectIdentity_ptW_val bit a c h hb ha]
+  rcases hbit with e | e <;> simp [e]
+
+/-- **Exactness.**  The satisfying assignments are exactly those with a boolean bit wire and the
+    returned pair `(bit·x, 1 − bit + bit·y)`. -/
+theorem componentSelectIdentity_exact (bit : Nat) (a : Pt) (c : Composer) (h : WF c)
+    (c'' : Composer) (hext : Extends ((componentSelectIdentity bit a).run c).2 c'')
+    (w : Nat → Nat) :
+    c''.rowsHoldW w c.gates.size ((componentSelectIdentity bit a).run c).2.gates.size ↔
+      (toF (w bit) = 0 ∨ toF (w bit) = 1) ∧
+      ptW w (c.wit.size, c.wit.size + 1) = selIdF (toF (w bit)) (ptW w a) :=
+  ((componentSelectIdentity_appendsL bit a c).rows_ext hext w).trans
+    (componentSelectIdentity_rows_iff bit a c h w)
+
+/-- the model's own table satisfies the rows iff the bit value is boolean -/
+theorem componentSelectIdentity_honest_iff (bit : Nat) (a : Pt) (c : Composer) (h : WF c)
+    (hb : bit < c.wit.size) (ha : PtAlloc c a) :
+    ((componentSelectIdentity bit a).run c).2.rowsHoldW
+        ((componentSelectIdentity bit a).run c).2.val c.gates.size
+        ((componentSelectIdentity bit a).run c).2.gates.size ↔
+      (c.val bit = 0 ∨ c.val bit = 1) :=
+  Composer.componentSelectIdentity_honest_iff bit a c h hb ha
+
+/-- non-vacuity: bit wire 1 (value 1) selects `exG`; bit wire 0 (value 0) selects the identity;
+    bit wire 2 (value 6) makes the model's table violate the rows -/
+example : ptW ((componentSelectIdentity 1 (6, 7)).run exC).2.val
+      ((componentSelectIdentity 1 (6, 7)).run exC).1 = toFP exG := by
+  have := (componentSelectIdentity_complete 1 (6, 7) exC exC_wf (by rw [exC_wit_size]; decide)
+    exC_allocG (Or.inr exC_val1) _ (Extends.refl _)).2
+  rwa [if_pos exC_val1, exC_ptG] at this
+example : ptW ((componentSelectIdentity 0 (6, 7)).run exC).2.val
+      ((componentSelectIdentity 0 (6, 7)).run exC).1 = idF := by
+  have := (componentSelectIdentity_complete 0 (6, 7) exC exC_wf (by rw [exC_wit_size]; decide)
+    exC_allocG (Or.inl exC_val0) _ (Extends.refl _)).2
+  rwa [if_neg (by rw [exC_val0]; decide)] at this
+example : ¬ ((componentSelectIdentity 2 (6, 7)).run exC).2.rowsHoldW
+    ((componentSelectIdentity 2 (6, 7)).run exC).2.val exC.gates.size
+    ((componentSelectIdentity 2 (6, 7)).run exC).2.gates.size := by
+  rw [componentSelectIdentity_honest_iff 2 (6, 7) exC exC_wf (by rw [exC_wit_size]; decide)
+    exC_allocG, exC_val2]
+  decide
+
+/-! ## `component_select_point` -/
+
+/-- `component_select_point bit a b` returns `(n+3, n+7)`; 8 plain gates, 8 witnesses -/
+theorem componentSelectPoint_extends (bit : Nat) (a b : Pt) (c : Composer) :
+    ((componentSelectPoint bit a b).run c).1 = (c.wit.size + 3, c.wit.size + 7) ∧
+    AppendsL c ((componentSelectPoint bit a b).run c).2 8 8 ∧
+    (WF c → WF ((componentSelectPoint bit a b).run c).2) :=
+  ⟨Composer.componentSelectPoint_fst bit a b c, componentSelectPoint_appendsL bit a b c,
+    Composer.componentSelectPoint_wf bit a b c⟩
+
+/-- **Soundness.**  The returned coordinates are `bit·a + (1 − bit)·b`: the first input for
+    `bit = 1`, the second for `bit = 0`.  (Booleanity is not enforced by this component.) -/
+theorem componentSelectPoint_sound (bit : Nat) (a b : Pt) (c : Composer) (h : WF c)
+    (c'' : Composer) (hext : Extends ((componentSelectPoint bit a b).run c).2 c'')
+    (w : Nat → Nat)
+    (hrows : c''.rowsHoldW w c.gates.size ((componentSelectPoint bit a b).run c).2.gates.size) :
+    ptW w ((componentSelectPoint bit a b).run c).1 = selPtF (toF (w bit)) (ptW w a) (ptW w b) ∧
+    (toF (w bit) = 1 → ptW w ((componentSelectPoint bit a b).run c).1 = ptW w a) ∧
+    (toF (w bit) = 0 → ptW w ((componentSelectPoint bit a b).run c).1 = ptW w b) :=
+  Composer.componentSelectPoint_sound bit a b c h w
+    (((componentSelectPoint_appendsL bit a b c).rows_ext hext w).mp hrows)
+
+/-- **Completeness**: always satisfiable (allocated inputs); the model stores
+    `bit·a + (1 − bit)·b`. -/
+theorem componentSelectPoint_complete (bit : Nat) (a b : Pt) (c : Composer) (h : WF c)
+    (hbit : bit < c.wit.size) (ha : PtAlloc c a) (hb : PtAlloc c b)
+    (c'' : Composer) (hext : Extends ((componentSelectPoint bit a b).run c).2 c'') :
+    c''.rowsHoldW c''.val c.gates.size ((componentSelectPoint bit a b).run c).2.gates.size ∧
+    ptW ((componentSelectPoint bit a b).run c).2.val ((componentSelectPoint bit a b).run c).1 =
+      selPtF (toF (c.val bit)) (ptW c.val a) (ptW c.val b) :=
+  ⟨((componentSelectPoint_appendsL bit a b c).rows_ext hext _).mpr
+      (componentSelectPoint_honest_ext bit a b c h hbit ha hb hext),
+    componentSelectPoint_ptW_val bit a b c h hbit ha hb⟩
+
+/-- **Exactness**: the rows hold iff the eight new wires carry the two selection chains
+    (`bit·u`, `1 − bit`, `(1 − bit)·v`, their sum) — every wire is determined. -/
+theorem componentSelectPoint_exact (bit : Nat) (a b : Pt) (c : Composer) (h : WF c)
+    (c'' : Composer) (hext : Extends ((componentSelectPoint bit a b).run c).2 c'')
+    (w : Nat → Nat) :
+    c''.rowsHoldW w c.gates.size ((componentSelectPoint bit a b).run c).2.gates.size ↔
+      (toF (w c.wit.size) = toF (w bit) * toF (w a.1) ∧
+       toF (w (c.wit.size + 1)) = 1 - toF (w bit) ∧
+       toF (w (c.wit.size + 2)) = toF (w (c.wit.size + 1)) * toF (w b.1) ∧
+       toF (w (c.wit.size + 3)) = toF (w (c.wit.size + 2)) + toF (w c.wit.size)) ∧
+      (toF (w (c.wit.size + 4)) = toF (w bit) * toF (w a.2) ∧
+       toF (w (c.wit.size + 5)) = 1 - toF (w bit) ∧
+       toF (w (c.wit.size + 6)) = toF (w (c.wit.size + 5)) * toF (w b.2) ∧
+       toF (w (c.wit.size + 7)) = toF (w (c.wit.size + 6)) + toF (w (c.wit.size + 4))) :=
+  ((componentSelectPoint_appendsL bit a b c).rows_ext hext w).trans
+    (componentSelectPoint_rows_iff bit a b c h w)
+
+example : ptW ((componentSelectPoint 1 (6, 7) (8, 9)).run exC).2.val
+      ((componentSelectPoint 1 (6, 7) (8, 9)).run exC).1 = toFP exG := by
+  have := (componentSelectPoint_complete 1 (6, 7) (8, 9) exC exC_wf (by rw [exC_wit_size]; decide)
+    exC_allocG exC_allocH _ (Extends.refl _)).2
+  rwa [exC_val1, toF_one, selPtF_one, exC_ptG] at this
+example : ptW ((componentSelectPoint 0 (6, 7) (8, 9)).run exC).2.val
+      ((componentSelectPoint 0 (6, 7) (8, 9)).run exC).1 = toFP exH := by
+  have := (componentSelectPoint_complete 0 (6, 7) (8, 9) exC exC_wf (by rw [exC_wit_size]; decide)
+    exC_allocG exC_allocH _ (Extends.refl _)).2
+  rwa [exC_val0, toF_zero, selPtF_zero, exC_ptH] at this
+
+/-! ## `component_mul_point` -/
+
+/-- `component_mul_point s P` returns the last two of its `2520` witnesses
+    (`504 = 2·252` for the decomposition, `8` per ladder round), and appends
+    `2017 = (2·252 + 1) + 6·252` gates; the last gate is plain. -/
+theorem componentMulPoint_extends (s : Nat) (P : Pt) (c : Composer) :
+    ((componentMulPoint s P).run c).1 = (c.wit.size + 2518, c.wit.size + 2519) ∧
+    AppendsL c ((componentMulPoint s P).run c).2 2017 2520 ∧
+    (WF c → WF ((componentMulPoint s P).run c).2) :=
+  ⟨Composer.componentMulPoint_fst s P c, componentMulPoint_appendsL s P c,
+    Composer.componentMulPoint_wf s P c⟩
+
+/-- **Soundness.**  For every assignment `w` with the constants in place (`w 0 = 0`, `w 1 = 1`,
+    pinned by rows 0, 1 of `initialized`) and the base-point wires on the curve: if the rows hold,
+    the scalar witness is below `2^252` and the returned pair carries the scalar multiple
+    `[s]P = P + … + P` (`smulF`, repeated addition; the ladder equals it unconditionally since
+    associativity is proved), which is on the curve. -/
+theorem componentMulPoint_sound (s : Nat) (P : Pt) (c : Composer) (h : WF c)
+    (c'' : Composer) (hext : Extends ((componentMulPoint s P).run c).2 c'') (w : Nat → Nat)
+    (h0 : toF (w 0) = 0) (h1 : toF (w 1) = 1) (hP : OnCurveP (ptW w P))
+    (hrows : c''.rowsHoldW w c.gates.size ((componentMulPoint s P).run c).2.gates.size) :
+    (toF (w s)).val < 2 ^ 252 ∧
+    ptW w ((componentMulPoint s P).run c).1 = smulF (toF (w s)).val (ptW w P) ∧
+    OnCurveP (ptW w ((componentMulPoint s P).run c).1) :=
+  Composer.componentMulPoint_sound s P c h w h0 h1 hP
+    (((componentMulPoint_appendsL s P c).rows_ext hext w).mp hrows)
+
+/-- **Unsatisfiable for a scalar witness `≥ 2^252`.** -/
+theorem componentMulPoint_unsat (s : Nat) (P : Pt) (c : Composer) (h : WF c)
+    (c'' : Composer) (hext : Extends ((componentMulPoint s P).run c).2 c'') (w : Nat → Nat)
+    (h0 : toF (w 0) = 0) (h1 : toF (w 1) = 1) (hP : OnCurveP (ptW w P))
+    (hs : 2 ^ 252 ≤ (toF (w s)).val) :
+    ¬ c''.rowsHoldW w c.gates.size ((componentMulPoint s P).run c).2.gates.size :=
+  fun hrows => absurd (componentMulPoint_sound s P c h c'' hext w h0 h1 hP hrows).1 (by omega)
+
+/-- **Every intermediate wire is determined.**  Two satisfying assignments that agree on the
+    scalar and on the base point agree (as field elements) on all `2520` wires the component
+    allocates: bits, accumulators of the decomposition, and per round the doubling, the selected
+    point, the two helper wires and the new accumulator. -/
+theorem componentMulPoint_determ (s : Nat) (P : Pt) (c : Composer) (h : WF c)
+    (c'' : Composer) (hext : Extends ((componentMulPoint s P).run c).2 c'') (w w' : Nat → Nat)
+    (h0 : toF (w 0) = 0) (h1 : toF (w 1) = 1) (h0' : toF (w' 0) = 0) (h1' : toF (w' 1) = 1)
+    (hP : OnCurveP (ptW w P)) (es : toF (w s) = toF (w' s)) (eP : ptW w P = ptW w' P)
+    (hrows : c''.rowsHoldW w c.gates.size ((componentMulPoint s P).run c).2.gates.size)
+    (hrows' : c''.rowsHoldW w' c.gates.size ((componentMulPoint s P).run c).2.gates.size) :
+    ∀ i, c.wit.size ≤ i → i < c.wit.size + 2520 → toF (w i) = toF (w' i) := by
+  have A := componentMulPoint_appendsL s P c
+  intro i hlo hhi
+  exact Composer.componentMulPoint_determ s P c h w w' h0 h1 h0' h1' hP es eP
+    ((A.rows_ext hext w).mp hrows) ((A.rows_ext hext w').mp hrows') i hlo (by rw [A.wit]; exact hhi)
+
+/-- **Completeness.**  For an allocated scalar witness with value below `2^252`, an allocated
+    on-curve base point and the constants `0`, `1` in place, the model's own table satisfies all
+    rows (always satisfiable for any 252-bit scalar), and the returned pair stores `[s]P`. -/
+theorem componentMulPoint_complete (s : Nat) (P : Pt) (c : Composer) (h : WF c)
+    (hs : s < c.wit.size) (hP : PtAlloc c P) (hz : c.val 0 = 0) (ho : c.val 1 = 1)
+    (hv : c.val s < 2 ^ 252) (cP : OnCurveP (ptW c.val P))
+    (c'' : Composer) (hext : Extends ((componentMulPoint s P).run c).2 c'') :
+    c''.rowsHoldW c''.val c.gates.size ((componentMulPoint s P).run c).2.gates.size ∧
+    ptW ((componentMulPoint s P).run c).2.val ((componentMulPoint s P).run c).1 =
+      smulF (c.val s) (ptW c.val P) :=
+  ⟨((componentMulPoint_appendsL s P c).rows_ext hext _).mpr
+      (componentMulPoint_honest_ext s P c h hs hP hz ho hv cP hext),
+    componentMulPoint_ptW_val s P c h hs hP hz ho hv cP⟩
+
+/-- **Exactness**: the model's table satisfies the rows iff the scalar value is below `2^252`
+    (other hypotheses as in completeness). -/
+theorem componentMulPoint_exact (s : Nat) (P : Pt) (c : Composer) (h : WF c)
+    (hs : s < c.wit.size) (hP : PtAlloc c P) (hz : c.val 0 = 0) (ho : c.val 1 = 1)
+    (cP : OnCurveP (ptW c.val P)) :
+    ((componentMulPoint s P).run c).2.rowsHoldW ((componentMulPoint s P).run c).2.val
+        c.gates.size ((componentMulPoint s P).run c).2.gates.size ↔ c.val s < 2 ^ 252 := by
+  have hx := (componentMulPoint_appendsL s P c).ext
+  have h1lt : 1 < c.wit.size := by
+    by_contra hn
+    rw [val_of_size_le c (Nat.le_of_not_lt hn)] at ho
+    exact absurd ho (by decide)
+  constructor
+  · intro hrows
+    have := (componentMulPoint_sound s P c h _ (Extends.refl _) _
+      (by rw [hx.val_eq (show 0 < c.wit.size by omega), hz]; exact toF_zero)
+      (by rw [hx.val_eq h1lt, ho]; exact toF_one)
+      (by rw [hx.ptW_val_eq hP]; exact cP) hrows).1
+    rwa [hx.val_eq hs, val_toF_of_lt (h.val_lt s)] at this
+  · intro hv
+    exact (componentMulPoint_complete s P c h hs hP hz ho hv cP _ (Extends.refl _)).1
+
+/-- **Soundness, self-contained form**: in any circuit built on `Composer::initialized()`, the
+    two constant hypotheses follow from rows 0 and 1 of the circuit itself. -/
+theorem componentMulPoint_sound_initialized (s : Nat) (P : Pt) (c : Composer) (h : WF c)
+    (hinit : Extends initialized c)
+    (c'' : Composer) (hext : Extends ((componentMulPoint s P).run c).2 c'') (w : Nat → Nat)
+    (hbase : c''.rowsHoldW w 0 2) (hP : OnCurveP (ptW w P))
+    (hrows : c''.rowsHoldW w c.gates.size ((componentMulPoint s P).run c).2.gates.size) :
+    (toF (w s)).val < 2 ^ 252 ∧
+    ptW w ((componentMulPoint s P).run c).1 = smulF (toF (w s)).val (ptW w P) ∧
+    OnCurveP (ptW w ((componentMulPoint s P).run c).1) := by
+  obtain ⟨h0, h1⟩ := initialized_base_ext
+    ((hinit.trans (componentMulPoint_appendsL s P c).ext).trans hext) w hbase
+  exact componentMulPoint_sound s P c h c'' hext w h0 h1 hP hrows
+
+/-- non-vacuity: on `initialized` itself (scalar wire 2 holds 6, base point = the constant wires
+    `(0, 1)`, i.e. the identity) the model's table satisfies the base rows and the component's
+    rows, and the theorem yields `6 < 2^252` -/
+example : (toF (((componentMulPoint 2 (0, 1)).run initialized).2.val 2)).val < 2 ^ 252 := by
+  have hid : OnCurveP (ptW initialized.val (0, 1)) := by
+    unfold ptW; rw [initialized_val_zero, initialized_val_one, toF_zero, toF_one]
+    exact id_on_curveP
+  have hal : PtAlloc initialized (0, 1) := by
+    unfold PtAlloc; rw [initialized_wit_size]; decide
+  have hx := (componentMulPoint_appendsL 2 (0, 1) initialized).ext
+  have hc := componentMulPoint_complete 2 (0, 1) initialized initialized_wf
+    (by rw [initialized_wit_size]; decide) hal initialized_val_zero initialized_val_one
+    (by decide +kernel) hid _ (Extends.refl _)
+  refine (componentMulPoint_sound_initialized 2 (0, 1) initialized initialized_wf (Extends.refl _)
+    _ (Extends.refl _) _ (initialized_base_rows_honest _ hx)
+    (by rw [hx.ptW_val_eq hal]; exact hid) hc.1).1
+
+/-- non-vacuity: scalar wire 2 of `exC` holds 6; the model's table satisfies the 2017 rows of
+    `[6]·exG` and stores the scalar multiple -/
+example : ptW ((componentMulPoint 2 (6, 7)).run exC).2.val ((componentMulPoint 2 (6, 7)).run exC).1
+    = smulF 6 (toFP exG) := by
+  have := (componentMulPoint_complete 2 (6, 7) exC exC_wf (by rw [exC_wit_size]; decide)
+    exC_allocG exC_val0 exC_val1 (by rw [exC_val2]; norm_num) exC_onG _ (Extends.refl _)).2
+  rwa [exC_val2, exC_ptG] at this
+example : ((componentMulPoint 2 (6, 7)).run exC).2.rowsHoldW
+    ((componentMulPoint 2 (6, 7)).run exC).2.val exC.gates.size
+    ((componentMulPoint 2 (6, 7)).run exC).2.gates.size :=
+  (componentMulPoint_exact 2 (6, 7) exC exC_wf (by rw [exC_wit_size]; decide) exC_allocG exC_val0
+    exC_val1 exC_onG).mpr (by rw [exC_val2]; norm_num)
 
 end Plonk.Props.C12
